@@ -49,6 +49,7 @@ type Arr struct {
 	Name string
 	Elem types.Type
 	Zero bool // content starts as all zero values (local fixed-size arrays)
+	Fresh bool // made by the function under verification (make / append / literal): not visible to its caller at entry
 }
 
 // ArrayV is a fixed-size array value with more than 8 elements: its elements live in a backing
